@@ -204,6 +204,9 @@ def cmd_check(prop, tier, n_runs=None, jobs=None):
         'planned_runs': n_runs,
         'cut_short_by_wall_cap': batch.cut_short,
         'runs_per_hour': int(batch.completed / batch.wall_s * 3600) if batch.wall_s else 0,
+        'prng_streams': batch.completed,       # one PRNG stream "<prop>:<VERIF_SEED>:<run>" per run
+        'states_measure': getattr(mod, 'STATES_MEASURE', "see 'rule'"),
+        'states': len(batch.sets.get('states', ())),
         'search_wall_s': round(batch.wall_s, 2),
         'workers': batch.jobs,
         'hash_seed_classes': list(range(core.HASH_CLASSES)),
